@@ -2,7 +2,7 @@
    run h      : the model of RegisteredDecoys after the history h (C08/Model.v)
    ghost h k  : the life of registration k as a function of the history alone
                 (age since the first Track of the current life, used flag)          *)
-From CJ Require Import Common.Base C08.Model C08.Proofs C08.Invariant C08.Sweep C08.History C08.Bounded C08.Counters.
+From CJ Require Import Common.Base C08.Model C08.Proofs C08.Invariant C08.Sweep C08.History C08.Bounded C08.Counters C08.Stats C08.ModelConn C08.Conn.
 
 (* The table agrees with the per-registration specification after every history. *)
 Theorem C08_refines_spec :
@@ -167,3 +167,83 @@ Theorem C08_announced_once_per_life :
                 (gvalid h k = true -> ~ In (EvNew k) (emits (run h) o)).
 Proof. exact announced_once_per_life. Qed.
 Print Assumptions C08_announced_once_per_life.
+
+(* The sweep's statistics (the two results of removeOldRegistrations: expired, expired-and-valid) refine the
+   specification: the indices a sweep collects are exactly the registrations whose specification life ends at this sweep
+   (alive, and not kept by the rule), each once, and the second count is over those validated during that life. *)
+Theorem C08_expiry_stat_refines_spec :
+  forall h, let E := get_expired (run h) in
+    emits (run h) Sweep =
+      [EvExpired (N.of_nat (length E)) (N.of_nat (length (filter (fun key => gvalid h (key_regkey key)) E)))] /\
+    NoDup E /\
+    (forall key, In key E <-> exists a u, ghost h (key_regkey key) = Some (a, u) /\ kept a u = false).
+Proof. exact expiry_stat_ghost. Qed.
+Print Assumptions C08_expiry_stat_refines_spec.
+
+(* ---- the connection handler above the table (C08/ModelConn.v) ----
+   hrun h      : registry and open tunnels after the handler history h; a connection (HConnect c k) is what
+                 handleNewTCPConn does: matched iff getRegistrations returns k, marked used AT THE MATCH, tunnel open
+                 until HClose c, which does nothing to the registry
+   hghost h k  : the life of k as a function of the handler history alone (age since registration, has carried a
+                 connection, validated); helapsed: the time that passes                                             *)
+
+(* A handler history amounts to the registry history htrace h: every theorem above holds for the station's histories. *)
+Theorem C08_conn_is_registry_history :
+  forall h, h_reg (hrun h) = run (htrace h).
+Proof. exact hrun_trace. Qed.
+Print Assumptions C08_conn_is_registry_history.
+
+(* The handler and the table together refine the handler-level specification. *)
+Theorem C08_conn_refines_spec :
+  forall h k, tracked (h_reg (hrun h)) k = is_some (fst (hghost h k)) /\ matches (h_reg (hrun h)) k = snd (hghost h k).
+Proof. exact conn_refines_spec. Qed.
+Print Assumptions C08_conn_refines_spec.
+
+(* After a sweep: tracked iff at most 10 min old, or has carried a connection and is at most 6 h old. *)
+Theorem C08_conn_sweep_exact :
+  forall h k, tracked (h_reg (hrun (h ++ [HReg Sweep]))) k = true <->
+    exists a, hage h k = Some a /\ (a <= ten_min \/ (hcarried h k = true /\ a <= six_h)).
+Proof. exact conn_sweep_exact. Qed.
+Print Assumptions C08_conn_sweep_exact.
+
+(* Never early, whatever the tunnel's duration: a registration that matched a connection when it was a old (a counted
+   from its REGISTRATION) stays tracked, keeps matching reconnects and counts as "has carried a connection" for as long
+   as a + the time passed since the match is at most 6 h - whether the tunnel has been closed in between or not. *)
+Theorem C08_conn_open_tunnel_kept :
+  forall h c k h2 a,
+    matches (h_reg (hrun h)) k = true -> hage h k = Some a -> a + helapsed h2 <= six_h ->
+    tracked (h_reg (hrun (h ++ HConnect c k :: h2))) k = true /\
+    matches (h_reg (hrun (h ++ HConnect c k :: h2))) k = true /\
+    hcarried (h ++ HConnect c k :: h2) k = true /\
+    hage (h ++ HConnect c k :: h2) k = Some (a + helapsed h2).
+Proof. exact open_tunnel_kept. Qed.
+Print Assumptions C08_conn_open_tunnel_kept.
+
+(* ... and not longer.  The clock the code uses is the registration's (DecoyTimeout.registrationTime is set by track and
+   never touched again): unless it is registered anew in between, a matched registration survives a sweep iff its age
+   SINCE REGISTRATION is at most 6 h - neither the match nor the end of the tunnel restarts the count. *)
+Theorem C08_conn_lifetime_from_registration :
+  forall h c k h2 a,
+    matches (h_reg (hrun h)) k = true -> hage h k = Some a ->
+    (forall o, In (HReg o) h2 -> starts o k = false) ->
+    (tracked (h_reg (hrun (h ++ HConnect c k :: h2 ++ [HReg Sweep]))) k = true <-> a + helapsed h2 <= six_h).
+Proof. exact matched_exact. Qed.
+Print Assumptions C08_conn_lifetime_from_registration.
+
+(* The end of a tunnel changes nothing: the registry does not depend on where (or whether) the closes occur. *)
+Theorem C08_conn_tunnel_end_irrelevant :
+  (forall h1 c h2, h_reg (hrun (h1 ++ HClose c :: h2)) = h_reg (hrun (h1 ++ h2))) /\
+  (forall h, h_reg (hrun h) = h_reg (hrun (filter (fun e => negb (is_close e)) h))).
+Proof. exact (conj close_irrelevant closes_irrelevant). Qed.
+Print Assumptions C08_conn_tunnel_end_irrelevant.
+
+(* Never late: what survives a sweep is at most 10 min old, or at most 6 h old and a connection for it was matched by the
+   handler during its current life, a1 after its registration (handler_only: MarkActive has no caller but the handler). *)
+Theorem C08_conn_never_late :
+  forall h k, handler_only h -> tracked (h_reg (hrun (h ++ [HReg Sweep]))) k = true ->
+    exists a, hage h k = Some a /\
+      (a <= ten_min \/
+       (a <= six_h /\ exists h1 c h2 a1, h = h1 ++ HConnect c k :: h2 /\ matches (h_reg (hrun h1)) k = true /\
+                                         hage h1 k = Some a1 /\ a = a1 + helapsed h2)).
+Proof. exact conn_never_late. Qed.
+Print Assumptions C08_conn_never_late.
